@@ -25,6 +25,7 @@ class Clock(i_lib.Clock):
     def start(self):
         self.reset()
         self._keep_going = True
+        self._event.clear()
         threading.Thread(target=self.run, args=(), daemon=True).start()
 
     @injection.inject(i_lib.Settings)
@@ -34,6 +35,9 @@ class Clock(i_lib.Clock):
             if sleep_time > 0.0:
                 time.sleep(sleep_time)
             self.fire()
+        # Release a thread that tested _keep_going just before stop() and has
+        # entered, or is about to enter, wait(): no further tick will come.
+        self._event.set()
 
     def stop(self):
         self._keep_going = False
